@@ -168,4 +168,35 @@ theorem bad_connect (fl : UInt8) (ka : UInt16) (L : Nat) (pre : List PropOcc) (b
   exact getAny_bad_legal 1 Connect.table Connect.agree pre hl _
     (by intro id; simp only [Connect.binInit, Connect.P1]; split <;> (try split) <;> rfl) bad suf L hL hreach hbad
 
+/-- the stages of CONNECT up to the client identifier, on their encoded input followed by anything -/
+theorem Connect.run3_full (fl : UInt8) (ka : UInt16) (ps : List PropOcc) (hps : propsLegal 1 ps = true)
+    (hsl : (ps.flatMap encOcc).length < 268435456) (cid : Bytes) (hcid : cid.length < 65536) (rest : Bytes) :
+    ∃ P3 : Connect, Connect.run3 { fixed := 0x10 }
+        (encBin Connect.mqtt5 ++ (5 :: fl :: (encU16 ka ++ (Spec.propSection ps ++ (encBin cid ++ rest)))))
+        = ({ rest := rest, st := .ok }, P3) ∧ P3.flags = fl ∧ P3.willPayload = [] := by
+  obtain ⟨f2, f2cid, _, _, f2wp⟩ := Connect.P2_facts fl ka ps
+  refine ⟨{ (ps.foldl Connect.applyOcc (Connect.P1 fl ka)) with clientID := cid }, ?_, f2, f2wp⟩
+  simp only [Connect.run3, Connect.run2, Connect.run1, Connect.readHead_run]
+  rw [Connect.readProps_run fl ka ps hps _ hsl]
+  simp only [Connect.readClientID, f2cid, get_bin cid hcid]
+
+/-- CONNECT, in the will properties (will flag set in the flags byte `fl`) -/
+theorem bad_connect_will (fl : UInt8) (hfl : has fl Connect.fWillFlag = true) (ka : UInt16) (ps : List PropOcc)
+    (hps : propsLegal 1 ps = true) (hsl : (ps.flatMap encOcc).length < 268435456) (cid : Bytes) (hcid : cid.length < 65536)
+    (L : Nat) (pre : List PropOcc) (bad suf : Bytes) (hl : propsLegal Spec.willK pre = true)
+    (hL : L < 268435456) (hreach : (pre.flatMap encOcc).length < L) (hbad : BadProp Connect.willTable bad) :
+    ∃ e, frameOutcome 0x10 (encBin Connect.mqtt5 ++ (5 :: fl :: (encU16 ka ++ (Spec.propSection ps ++ (encBin cid
+      ++ badSection L pre bad suf))))) = .err e := by
+  apply frameOutcome_failed _ _ (by simp [encBin])
+  have hd : Packet.dispatch 0x10 = .connect { fixed := 0x10 } := by decide
+  rw [hd]
+  simp only [Packet.unmarshal]
+  apply Connect.fail4
+  obtain ⟨P3, hrun, hf, hwp⟩ := Connect.run3_full fl ka ps hps hsl cid hcid (badSection L pre bad suf)
+  simp only [Connect.run4, hrun]
+  unfold Connect.readWill
+  simp only [hf, hfl, if_true, hwp, badSection]
+  exact get_failed _ _ _ (get_failed _ _ _
+    (getAny_bad_legal Spec.willK Connect.willTable Connect.agreeWill pre hl (fun _ => []) (fun _ => rfl) bad suf L hL hreach hbad))
+
 end Mq
